@@ -178,9 +178,6 @@ pub fn families(prop: &str, tier: Tier) -> Vec<Cfg> {
                 });
                 a.props = vec!["C07"];
                 a.ops = vec![OpK::Pub1, OpK::Pub2, OpK::Sub, OpK::Unsub, OpK::Poll, OpK::Age];
-                if i > 0 {
-                    a.ops.pop();
-                }
                 a.start_pid = start;
                 a.io = IoMenu::benign();
                 a.io.write_pending = true;
